@@ -1,8 +1,10 @@
+#![allow(dead_code)]
 //! verif-check <ID> <quick|thorough>  |  verif-check <ID> --replay <file>
 mod checks;
 mod drive;
 mod runner;
 mod tape;
+mod textgen;
 
 fn main() {
     let args: Vec<String> = std::env::args().skip(1).collect();
